@@ -76,7 +76,7 @@ func transTablesFor(versionConsts map[string]int64) *transTables {
 			"recv.getDepVersionForName":          {lean: "getDepVersionForName", t: tText},
 			"cachedParseVersion":                 {lean: "Resolver.pv", t: tVersion, optErr: true},
 			"cachedResolvePackageNameVersionPin": {lean: "parseConstraint", t: tConstraint},
-			"CompareVersions":                    {lean: "Trans.compareVersionsInt", t: tInt},
+			"CompareVersions":                    {lean: "compareVersionsGo", t: tInt},
 			"includesVersion":                    {lean: "includesVersion", t: tBool},
 			"(Dep).satisfies":                    {lean: "satisfies", t: tBool},
 			"cmp.Compare":                        {lean: "Trans.cmpCompare", t: tInt},
@@ -135,6 +135,7 @@ func transFiles() []transFile {
 			{file: cacheGo, fn: "cacheFileFromEtag", lean: "cacheFileFromEtag"},
 		}},
 		{out: "TransVersion", imports: []string{"Apko.Model.Version", "Apko.Model.TransPrelude"}, prefix: "version.go", targets: []transTarget{
+			{file: versionGo, fn: "CompareVersions", lean: "compareVersionsGo"},
 			{file: versionGo, fn: "includesVersion", lean: "includesVersion"},
 			{file: versionGo, fn: "versionDependency.satisfies", lean: "satisfies"},
 		}},
